@@ -6,44 +6,76 @@ from vlib import Machinery, log
 MANIFEST = dict(
     module="Engine", ref="§5 C17",
     text="Engine.tla specifies the template engine as a cache of immutable template values with rendering as a pure function "
-         "of the value captured at load (inheritance chain: most derived block wins, siblings independent). TLC checks the "
+         "of the value captured at load and of the data (inheritance chain: most derived block wins, siblings independent; document "
+         "templates with paragraphs, page header and tables - split-run placeholders, a row loop with a nested table, summary cells "
+         "holding a whole loop and a conditional, a row loop over a list nobody supplies; list items that are maps, maps lacking "
+         "the field, map[string]string or plain strings). The alphabet covers the engine (LoadTemplate, LoadTemplateFromDocument, "
+         "RenderToDocument, RenderTemplateToDocument, Get/Validate/Remove/ClearCache/SetBasePath) and the TemplateRenderer front "
+         "on the same engine (LoadTemplateFromFile, RenderTemplate, AnalyzeTemplate + GetRequiredData as a reader). TLC checks the "
          "reference machine exhaustively, sequentially (Engine_MC) and under all interleavings of two thread programs at "
          "hook-point granularity (Engine_Conc), and must find counterexamples in the separately modelled as-built variant "
          "(non-vacuity self-test). Every operation sequence to the BFS depth plus seeded random ones is replayed on a real "
-         "engine; after every step what every name renders, which object is cached and deep before/after snapshots of "
-         "templates, base documents and data are judged by Engine_Trace.tla. TLC-generated schedules of two/three threads are "
-         "forced on the real engine through the verifPoint gate (call-level interleavings if the library has no hook points) "
-         "and judged for linearisability; the same programs run free on a -race build, race reports become witnesses.",
+         "engine; after every step what every name renders (paragraphs, header, table rows; in memory and as saved), which object "
+         "is cached and deep before/after snapshots of templates, base documents and data are judged by Engine_Trace.tla. "
+         "TLC-generated schedules of two/three threads - writers against readers, and renders of document templates with data "
+         "of their own per thread - are forced on the real engine through the verifPoint gate (call-level interleavings if the "
+         "library has no hook points) and judged for linearisability; the same programs run free on a -race build, race reports "
+         "become witnesses.",
     technique="TLA+ spec Engine; TLC exhaustive MC (sequential + concurrent, reference and as-built variants) + TLC-generated "
               "behaviours and schedules replayed on the library (gate hook, -race stress) + TLC trace judge with a linearisability check",
-    note="TLC 1.8.0 and the TLA+ modules in spec/; the Go harness executor/projector (reflection-based deep dumps, independent "
-         "archive/zip + encoding/xml reader, no oracle logic); the Go race detector as an observation channel for memory-level "
-         "races (a race on a path the generated programs do not execute is missed); bounds stated in the evidence file",
+    note="TLC 1.8.0 and the TLA+ modules in spec/; the Go harness executor/projector (reflection-based deep dumps, the engine of a "
+         "TemplateRenderer read from its unexported field, independent archive/zip + encoding/xml reader, no oracle logic); the Go "
+         "race detector as an observation channel for memory-level races (a race on a path the generated programs do not execute is "
+         "missed); state shared between two renders in progress is only seen by the free-running stage (the gate releases one thread "
+         "at a time and the library has no hook point inside a render's substitution pass); bounds stated in the evidence file",
 )
 
 LEVEL = "model_checking"
-RULE = ("sequential: every sequence of load / load-from-document / render (both entry points) / remove / clear-cache calls up to "
-        "the tier's depth over a pool of root, child, sibling and grandchild definitions (string and document templates), "
-        "enumerated by TLC in BFS order, plus seeded random longer ones over the whole operation alphabet; after every step every "
-        "pool name is rendered through both entry points and compared with PureRender of the value the reference machine holds, "
-        "and with its own previous render when the step did not redefine it. concurrent: every interleaving, at hook-point "
-        "granularity, of two thread programs from the tier's pool (three threads sampled), forced on the real engine and judged "
-        "for linearisability against the reference machine; the same programs free-running on a -race build")
+RULE = ("sequential: every sequence of load / load-from-document / render (both engine entry points) / remove / clear-cache calls up "
+        "to the tier's depth over a pool of root, child, sibling and grandchild definitions (string and document templates), and every "
+        "sequence of load-from-file / load-from-document / render through TemplateRenderer.RenderTemplate (data with map, field-less "
+        "map, map[string]string items) / analyze / remove calls up to its depth, enumerated by TLC in BFS order, plus seeded random "
+        "longer ones over the whole operation alphabet, all three entry points and six data classes; after every step every pool "
+        "name is rendered through both engine entry points and compared (paragraphs, header, table rows) with PureRender of the value "
+        "the reference machine holds, and with its own previous render when the step did not redefine it; a render asked for by the "
+        "behaviour is compared with PureRender when its list items are of the documented kind and, whatever the kind, with its "
+        "immediate repetition and with every earlier render of the same value with the same data; an analysis must leave "
+        "templates and base documents untouched and the template must render the data it asks for the same twice. concurrent: every "
+        "interleaving, at hook-point granularity, of two thread programs from the tier's pool (writer/reader and reader/reader pairs "
+        "over string templates with inheritance; pairs of renders of document templates with per-thread data through all three entry "
+        "points, analysis and a reload from file next to them; three threads sampled), forced on the real engine and judged for "
+        "linearisability against the reference machine; the same programs free-running on a -race build")
 
-ALLK = {"Load", "Render", "Get", "Validate", "Remove", "Clear", "SetBasePath"}
+ASSUMPTIONS = [
+    "the text a render must show is fixed by Engine.tla for the template shapes of its pools only: a whole {{#each}} inside one "
+    "cell paragraph is generated together with a conditional and outside the table's row loop (WellFormedTbl), a loop row holds "
+    "no variable or conditional of the outer data; other shapes are not generated",
+    "list items are map[string]interface{} with the field used (documented), or - undocumented kinds - maps without it, "
+    "map[string]string, strings. Of renders with undocumented kinds no text is demanded (no render-wrong): only the status, the "
+    "same result as an immediate repetition, as any earlier render of the same template value with the same data in the behaviour "
+    "(sequential) / as the render done alone before the threads start and as the other calls of the run (concurrent), and "
+    "untouched data, templates and base documents; the reference machine's own choice for them only feeds generation",
+    "TemplateRenderer is driven on the engine it creates for itself (pointer read from the unexported field `engine`); template "
+    "files are written by Document.Save and read back by the library's Open",
+    "AnalyzeTemplate / GetRequiredData: only read-only-ness and repeatability of the render with the data asked for are judged, "
+    "not the content of the analysis",
+]
+
+ALLK = {"Load", "Render", "Get", "Validate", "Remove", "Clear", "SetBasePath", "Analyze"}
+ALLE = {"doc", "tpl", "rnd"}
 NAMES = {"base", "A", "B", "G"}
 
 
-def mc_cfg(ctx, name, variant, pool, maxloads, invariants, properties):
+def mc_cfg(ctx, name, variant, pool, maxloads, invariants, properties, datas="DatasStd"):
     return ctx.cfg(name, "SpecMC",
-                   {"Variant": variant, "OpKinds": ALLK, "ArgNames": NAMES, "Entries": {"doc", "tpl"}, "MaxLoads": maxloads, "Depth": 0},
-                   invariants=invariants, properties=properties, extra="CONSTANTS\n  Loadables <- %s" % pool)
+                   {"Variant": variant, "OpKinds": ALLK, "ArgNames": NAMES, "Entries": ALLE, "MaxLoads": maxloads, "Depth": 0},
+                   invariants=invariants, properties=properties, extra="CONSTANTS\n  Loadables <- %s\n  RDatas <- %s" % (pool, datas))
 
 
-def gen_cfg(ctx, name, pool, kinds, argnames, entries, depth):
+def gen_cfg(ctx, name, pool, kinds, argnames, entries, depth, datas="DatasStd"):
     return ctx.cfg(name, "SpecGen",
                    {"Variant": "ref", "OpKinds": set(kinds), "ArgNames": set(argnames), "Entries": set(entries), "MaxLoads": 999, "Depth": depth},
-                   invariants=["Emit"], extra="CONSTANTS\n  Loadables <- %s" % pool)
+                   invariants=["Emit"], extra="CONSTANTS\n  Loadables <- %s\n  RDatas <- %s" % (pool, datas))
 
 
 def conc_cfg(ctx, name, variant, setup, progs, invariants):
@@ -147,7 +179,7 @@ def merged(ctx, tag, lists):
 
 
 def sequential(ctx, q):
-    inv = ["Inv_ShowsPure", "Inv_RenderPure", "Inv_CacheAgree"]
+    inv = ["Inv_ShowsPure", "Inv_RenderPure", "Inv_FrontAgnostic", "Inv_CacheAgree"]
     props = ["Act_Local", "Act_ReadersPure", "Act_ValuesImmutable"]
     ctx.tlc_mc("Engine_MC.tla", mc_cfg(ctx, "mc_ref.cfg", "ref", "PoolCore" if q else "PoolQuick", 3 if q else 4, inv, props), timeout=900)
     # as-built variant: base shows the child's block after two loads, a sibling after three
@@ -158,23 +190,34 @@ def sequential(ctx, q):
     core = dict(pool="PoolCore", kinds=["Load", "Render", "Remove", "Clear"], argnames=["A"], entries=["doc"])
     wide = dict(pool="PoolQuick" if q else "PoolThorough", kinds=["Load", "Render", "Remove", "Clear"],
                 argnames=sorted(NAMES) if q else ["base", "A"], entries=["doc", "tpl"])
-    plans = [("bfs-core", core, 4 if q else 5), ("bfs-wide", wide, 2 if q else 3)]
+    wide["datas"] = "DatasKeys"
+    # the TemplateRenderer front: templates loaded from files, rendered through RenderTemplate with every kind of
+    # list item, analysed; next to templates loaded through the engine API under the same names
+    front = dict(pool="PoolFile", kinds=["Load", "Render", "Analyze", "Remove"], argnames=["base", "A"],
+                 entries=["rnd"], datas="DatasKinds")
+    plans = [("bfs-core", core, 4 if q else 5), ("bfs-wide", wide, 2 if q else 3), ("bfs-front", front, 2 if q else 3)]
     lists = []
     for tag, a, depth in plans:
-        lists.append(ctx.tlc_gen("Engine_MC.tla", gen_cfg(ctx, "gen_%s.cfg" % tag, a["pool"], a["kinds"], a["argnames"], a["entries"], depth), tag))
+        lists.append(ctx.tlc_gen("Engine_MC.tla", gen_cfg(ctx, "gen_%s.cfg" % tag, a["pool"], a["kinds"], a["argnames"], a["entries"], depth,
+                                                          a.get("datas", "DatasStd")), tag))
     ctx.exhaustive = True
     d = 8 if q else 14
-    lists.append(ctx.tlc_gen("Engine_MC.tla", gen_cfg(ctx, "gen_sim.cfg", "PoolThorough", sorted(ALLK), sorted(NAMES), ["doc", "tpl"], d),
-                             "sim", mode="sim", num=15 if q else 100, depth=d + 2))
+    lists.append(ctx.tlc_gen("Engine_MC.tla", gen_cfg(ctx, "gen_sim.cfg", "PoolAll", sorted(ALLK), sorted(NAMES), sorted(ALLE), d, "Datas"),
+                             "sim", mode="sim", num=6 if q else 40, depth=d + 2))
     judge(ctx, ctx.run_exec("engine", merged(ctx, "seq", lists), "seq"), "seq", parts=1 if q else 4)
-    ctx.extra_cov["sequential_bounds"] = {"bfs_core_depth": plans[0][2], "bfs_wide_depth": plans[1][2], "sim_depth": d,
-                                          "behaviours": {"bfs_core": len(lists[0]), "bfs_wide": len(lists[1]), "sim": len(lists[2])},
-                                          "pools": {"core": "PoolCore", "wide": wide["pool"], "sim": "PoolThorough"}}
+    ctx.extra_cov["sequential_bounds"] = {"bfs_core_depth": plans[0][2], "bfs_wide_depth": plans[1][2], "bfs_front_depth": plans[2][2], "sim_depth": d,
+                                          "behaviours": {"bfs_core": len(lists[0]), "bfs_wide": len(lists[1]), "bfs_front": len(lists[2]),
+                                                         "sim": len(lists[3])},
+                                          "pools": {"core": "PoolCore", "wide": wide["pool"], "front": "PoolFile", "sim": "PoolAll"},
+                                          "render_data": {"core": "DatasStd", "wide": "DatasKeys", "front": "DatasKinds", "sim": "Datas"}}
 
 
 def concurrent(ctx, q):
     inv = ["Inv_ConcPure", "Inv_NoRace", "Inv_NotStuck", "Inv_CacheAgree"]
-    progs = "ProgsQuick" if q else "ProgsThorough"
+    # writers against readers and readers against readers over string templates with inheritance (from SetupBaseA), and
+    # document templates (tables, loops, conditionals) rendered by two threads at once, each with data of its own, through
+    # all three entry points, analysis next to renders, a reload from a file in between (from SetupDocs)
+    progs = "ProgsQuickAll" if q else "ProgsThoroughAll"
     ctx.tlc_mc("Engine_Conc.tla", conc_cfg(ctx, "conc_ref.cfg", "ref", "SetupBaseA", progs, inv), timeout=600)
     expect_violation(ctx, "Engine_Conc.tla", conc_cfg(ctx, "conc_built_race.cfg", "built", "SetupBaseA", "ProgsTiny", ["Inv_NoRace"]), "Inv_NoRace")
     if not q:
@@ -190,8 +233,8 @@ def concurrent(ctx, q):
                          mode="sim", num=20 if q else 300, depth=40)]
     obs = ctx.run_exec("enginegate", merged(ctx, "gate", lists), "gate")
     n, ngates = conc_stats(ctx, obs, "forced_schedules")
-    ctx.extra_cov["forced_schedules"]["behaviours"] = {"two_threads_inheritance": len(lists[0]), "two_threads_flat": len(lists[1]),
-                                                       "three_threads_sampled": len(lists[2])}
+    ctx.extra_cov["forced_schedules"]["behaviours"] = {"two_threads_inheritance_and_document_templates": len(lists[0]),
+                                                       "two_threads_flat": len(lists[1]), "three_threads_sampled": len(lists[2])}
     judge(ctx, obs, "gate")
     if ngates == 0:
         ctx.extra_cov["forced_schedules"]["mode"] = "library has no engine.* hook points: schedules degraded to call-level interleavings"
@@ -212,6 +255,7 @@ def concurrent(ctx, q):
 
 def run(ctx):
     q = ctx.tier == "quick"
+    ctx.assumptions = list(ASSUMPTIONS)
     part = os.environ.get("WZ_C17_PART", "")      # development aid: "seq" or "conc" runs only that half
     if part in ("", "seq"):
         sequential(ctx, q)
@@ -223,6 +267,7 @@ def run(ctx):
 
 
 def replay(ctx, rp):
+    ctx.assumptions = list(ASSUMPTIONS)
     c = rp["case"]
     tag = rp.get("tag", "bfs")
     ctx.cases_by_tag["replay"] = {c["id"]: c}
